@@ -314,6 +314,11 @@ impl<R: Read, TSpec> TagIterator<R, TSpec>
                 let path = <TSpec>::get_path_by_id(tag_id);
                 if path.iter().all(|p| matches!(p, PathPart::Id(_))) {
                     //We only know the current path if we read a tag that is non-global
+                    //Any (global) masters opened before this point cannot contain a non-global tag
+                    if self.tag_stack.iter().any(|tag| tag.size.is_known()) {
+                        return Err(TagIteratorError::CorruptedFileData(CorruptedFileError::HierarchyError { found_tag_id: tag_id, current_parent_id: self.tag_stack.last().map(|tag| tag.tag.get_id()) }));
+                    }
+                    self.emission_queue.extend(self.tag_stack.drain(..).map(|t| Ok((t.tag, t.tag_start))).rev());
                     self.tag_stack = path.iter().map(|id| {
                         match id {
                             PathPart::Id(id) => {
